@@ -17,8 +17,8 @@ import (
 
 // C04: every case carries a whole document as a tagged value (spec/DocValue.tla), built by the
 // TLA+ specification (spec/DocBuild.tla).  The driver renders it as JSON text, loads it with
-// the real loader (16 fresh loads per case) and calls (*openapi3.T).Validate once per option set
-// of the option list written by the same TLC run (opts.ndjson).  Logged: the document as realised (the JSON text
+// the real loader (16 fresh loads per case) and calls (*openapi3.T).Validate once per option
+// sequence (options applied in the order given) of the list written by the same TLC run (opts.ndjson).  Logged: the document as realised (the JSON text
 // that was sent, parsed back into the tagged form) and one verdict letter per option set:
 //   A  Validate returned nil        R  Validate returned an error
 //   L  the loader refused the text  P  panic
@@ -198,6 +198,16 @@ func c04Option(name string) openapi3.ValidationOption {
 		return openapi3.EnableSchemaFormatValidation()
 	case "Prohibit":
 		return openapi3.ProhibitExtensionsWithRef()
+	case "EnEx":
+		return openapi3.EnableExamplesValidation()
+	case "EnDef":
+		return openapi3.EnableSchemaDefaultsValidation()
+	case "EnPat":
+		return openapi3.EnableSchemaPatternValidation()
+	case "DisFmt":
+		return openapi3.DisableSchemaFormatValidation()
+	case "AllowExt":
+		return openapi3.AllowExtensionsWithRef()
 	case "AllowDesc":
 		return openapi3.AllowExtraSiblingFields("description")
 	case "AllowZzz":
